@@ -57,6 +57,9 @@ type Conn struct {
 	FailSubscribe func(subject string, n int) error
 	// FailPublish, if set, may return an error for the n-th (1-based) publish call.
 	FailPublish func(subject string, n int) error
+	// LogFailedPublish: a publish refused by FailPublish is still written to the log (kind
+	// "pub", note "failed"): the attempt is an effect of the calling code.
+	LogFailedPublish bool
 	nsub, npub  int
 	// OnPublish is called (outside the lock) after a publish was logged.
 	OnPublish func(Entry)
@@ -125,6 +128,11 @@ func (c *Conn) publish(subject, reply string, payload []byte) error {
 	c.mu.Unlock()
 	if ff != nil {
 		if err := ff(subject, n); err != nil {
+			if c.LogFailedPublish {
+				c.mu.Lock()
+				c.log = append(c.log, Entry{Seq: len(c.log), Kind: "pub", Subject: subject, Reply: reply, Data: append([]byte(nil), payload...), Note: "failed"})
+				c.mu.Unlock()
+			}
 			return err
 		}
 	}
